@@ -189,7 +189,7 @@ func VerifC03_KCycle() {
 		VerifC03_KBuiltins_Setup()
 		env = c03Env
 	}
-	shape := vndChoice("shape", 4)
+	shape := vndChoice("shape", 7)
 	var v *lisp.LVal
 	switch shape {
 	case 0:
@@ -201,6 +201,12 @@ func VerifC03_KCycle() {
 		b := lisp.QExpr([]*lisp.LVal{a})
 		a.Cells[1] = b
 		v = a
+	case 4: // map -> user-typed value -> map (the cycle crosses a deftype/new value)
+		v = env.LoadString("gen", "(deftype c3box (x) x) (let ((m (sorted-map))) (assoc! m \"self\" (new c3box m)) m)")
+	case 5: // vector -> user-typed value -> vector
+		v = env.LoadString("gen", "(deftype c3cell (x) x) (let ((w (vector 1))) (append! w (new c3cell w)) w)")
+	case 6: // user-typed value holding a list that holds the value's own container
+		v = env.LoadString("gen", "(deftype c3wrap (x) x) (let* ((w (vector)) (t (new c3wrap (list w 2)))) (append! w t) t)")
 	case 3: // map -> list -> map
 		m := lisp.SortedMap()
 		l := lisp.QExpr([]*lisp.LVal{m})
@@ -208,6 +214,7 @@ func VerifC03_KCycle() {
 		v = m
 	}
 	env.PutGlobal(lisp.Symbol("cyc"), v)
+	vDepthBound(2500) // Go recursion must stay bounded on cyclic data (the real build would overflow its stack)
 	s := v.String()
 	vAssert(len(s) > 0, "printing a self-containing value terminates")
 	ops := []string{"(equal? cyc cyc)", "(to-string cyc)", "(json:dump-string cyc)", "(format-string \"{}\" cyc)", "(debug-print cyc)", "(length cyc)", "(reverse 'list cyc)"}
